@@ -161,6 +161,11 @@ fn work(round_seed: u64, shared_f: &[Arc<FlatEx<f64>>], shared_d: &[Arc<DeepEx<'
 pub fn child(nthreads: usize, seed: u64) -> i32 {
     // the shared expressions are parsed *inside* the racing threads' start-up as well: the very first
     // parse of the process (lazy_static regex initialisation) happens concurrently
+    // one round in three: the very first parse of the process uses one of the equally sized custom
+    // factories (state initialised by the first caller must not leak into later parses)
+    if seed % 3 == 0 && custom(seed % 2 == 0, (seed / 3) as usize) != "ok" {
+        return 10;
+    }
     let barrier = Arc::new(Barrier::new(nthreads));
     let first: Vec<std::thread::JoinHandle<Vec<Arc<FlatEx<f64>>>>> = (0..nthreads)
         .map(|_| {
